@@ -35,6 +35,10 @@ CLAIMED = {
   "intruder actors holding the credentials of a lesser role (anonymous, guest JWT from /api/refresh/access, user, media-vs-other-users) harvest every CSRF token, cookie and JWT that role can legitimately obtain and fire well-formed mutation recipes for every state-changing handler plus a generic sweep over the routing table discovered at run time x {GET,HEAD,POST,PUT,DELETE}; a route-agnostic state oracle compares the committed content of every table (Token excluded) and the blob directory before and after every delivered request and checks each difference against the documented role policy; a CSRF probe (authorised client) submits fresh, reused, cross-service, cross-cookie, tampered and salt-swapped tokens on operations with unique visible effects under duplicated requests, lost responses, clock jumps past the 20-minute row lifetime and server restarts; legitimate manager traffic is interleaved",
   "sampling; requests atomic (the check-then-insert race inside CsrfProtection.check is not explored); cookie-session login runs on a shim of Flask-Login, JWT paths on the real library",
   TECH + "state-diff oracle attributing every durable change to one request"),
+ "C17": ("exploration",
+  "an authorised manager actor issues seeded sequences of 4-28 management operations over the real API (create/edit/delete stream, upload of forged, fixture and truncated media, index, edit and delete media, add/edit/delete key, create/edit/delete multi-period stream, stream defaults) with existing and non-existing targets and repeated names, while restarts, duplicated requests and lost responses are injected; after every delivered request the durable state is read with a private sqlite3 connection and checked for referential consistency, unique names and ownership of deletions; liveness probes ask every listed stream / multi-period stream for manifests of random templates and modes (never 5xx) and every uploaded-and-indexed file is read back through the on-demand and segment routes",
+  "sampling; requests atomic; process-crash and disk-error faults inside a request are not injected in this configuration",
+  TECH + "invariants on durable state after every event + liveness probes"),
 }
 
 PENDING_REASON = "check not built yet in this session (planned, see DESIGN.md build order); not claimed until its simulation exists"
